@@ -42,6 +42,7 @@ TOL = 1e-9
 AFF_INVS = ["NonZero", "RescaleInvariant", "LinActs", "TransActs", "EmitObs"]
 SUB_INVS = ["ElimExact", "SpanningSets", "Transverse", "MeetLaws"]
 EIG_INVS = ["InverseKept", "EigenEquation", "Diagonalised", "TraceLaw", "EmitObs"]
+SYM_INVS = ["Conformal", "SelfAdjoint", "EigenEquation", "Kinds", "EmitObs"]
 
 
 def proj():
@@ -125,7 +126,19 @@ def parse_affine(r):
     return obs, maps, hyp
 
 
-def check_charts(run, n, cplx, rows, obss, tag):
+def check_extreme(run, n, cplx, rows, obss, tag, extreme):
+    """the library's representatives multiplied by the spec's extreme scalars: same verdicts, same coordinates"""
+    if len(rows) > 300:                      # large batches: an evenly spaced sample of the states
+        step = len(rows) // 300 + 1
+        rows, obss = rows[::step], obss[::step]
+    for sc in extreme:
+        c = G(sc["m"]) * 10.0 ** sc["e"]
+        if not cplx:
+            c = c.real
+        check_charts(run, n, cplx, [np.asarray(r_) * c for r_ in rows], obss, "%s, rescaled by %s" % (tag, c), light=True)
+
+
+def check_charts(run, n, cplx, rows, obss, tag, light=False):
     """all chart observations of a batch of library points (rows of homogeneous coordinates)"""
     P = proj()
     GE = gerr()
@@ -183,64 +196,65 @@ def check_charts(run, n, cplx, rows, obss, tag):
                 bad = over(np.abs(got - want).max(-1, initial=0), TOL * scale)
                 for a in np.nonzero(bad)[0][:3]:
                     viol(int(idx[a]), "affine_coords.value", dict(chart=k, library=lst(got[a]), spec=lst(want[a])))
-                # column layout of the module-level function
-                try:
-                    with warnings.catch_warnings():
-                        warnings.simplefilter("ignore")
-                        gc = np.asarray(P.affine_coords(rows[idx].T.copy(), chart_index=k, column_vectors=True))
-                    if gc.shape != want.T.shape or over(np.abs(gc.T - want).max(-1, initial=0), TOL * scale).any():
-                        viol(int(idx[0]), "affine_coords.column_layout", dict(chart=k, library=lst(gc.T[0]) if gc.ndim == 2 else list(gc.shape), spec=lst(want[0])))
-                except Exception as ex:
-                    viol(int(idx[0]), "raised:affine_coords.column_layout", dict(chart=k, error=err(ex)))
-                # round trip: affine -> projective (1 in the chart slot) -> affine
-                try:
-                    with warnings.catch_warnings():
-                        warnings.simplefilter("ignore")
-                        back = P.Point(want.copy(), chart_index=k)
-                        hom = np.asarray(back.proj_data)
-                        again = np.asarray(back.affine_coords(chart_index=k))
-                        homc = np.asarray(P.projective_coords(want.T.copy(), chart_index=k, column_vectors=True))
-                    if hom.shape != rows[idx].shape or not (hom[..., k] == 1).all():
-                        viol(int(idx[0]), "projective_coords.one_in_chart_slot", dict(chart=k, library=lst(hom[0])))
-                    elif not parallel(hom, rows[idx]).all():
-                        a = int(np.nonzero(~parallel(hom, rows[idx]))[0][0])
-                        viol(int(idx[a]), "projective_coords.same_point", dict(chart=k, library=lst(hom[a]), affine=lst(want[a])))
-                    elif over(np.abs(again - want).max(-1, initial=0), TOL * scale).any():
-                        viol(int(idx[0]), "chart_round_trip", dict(chart=k))
-                    elif homc.shape != hom.T.shape or over(np.abs(homc.T - hom).max(initial=0), 0):
-                        viol(int(idx[0]), "projective_coords.column_layout", dict(chart=k))
-                except Exception as ex:
-                    viol(int(idx[0]), "raised:projective_coords", dict(chart=k, error=err(ex)))
-                # stacks of column matrices, shape batch + (d, N): the layout of a composite in column convention
-                for bshape in ((2,), (3,), (2, 2), (1, 2)):
-                    B = int(np.prod(bshape))
-                    N_ = len(idx) // B
-                    if N_ < 1 or B * N_ < 2 or got is None or got.shape != want.shape:
-                        continue
+                if not light:
+                    # column layout of the module-level function
                     try:
                         with warnings.catch_warnings():
                             warnings.simplefilter("ignore")
-                            sub = rows[idx][:B * N_]
-                            w = want[:B * N_]
-                            stack = sub.reshape(bshape + (N_, n + 1)).swapaxes(-1, -2).copy()
-                            wst = w.reshape(bshape + (N_, n)).swapaxes(-1, -2).copy()
-                            gs = np.asarray(P.affine_coords(stack, chart_index=k, column_vectors=True))
-                            hs = np.asarray(P.projective_coords(wst.copy(), chart_index=k, column_vectors=True))
-                        sc = scale[:B * N_].reshape(bshape + (1, N_))
-                        if gs.shape != wst.shape or over(np.abs(gs - wst), TOL * sc).any():
-                            viol(int(idx[0]), "affine_coords.column_stack", dict(chart=k, batch_shape=list(bshape), points_per_matrix=N_,
-                                                                                  got_shape=list(gs.shape), expected_shape=list(wst.shape)))
-                        hrow = np.asarray(P.projective_coords(w.copy(), chart_index=k))        # row layout of the same points
-                        hexp = hrow.reshape(bshape + (N_, n + 1)).swapaxes(-1, -2)
-                        if hs.shape != hexp.shape or not (hs[..., k, :] == 1).all() or over(np.abs(hs - hexp), 0).any():
-                            viol(int(idx[0]), "projective_coords.column_stack", dict(chart=k, batch_shape=list(bshape), points_per_matrix=N_,
-                                                                                      got_shape=list(hs.shape), expected_shape=list(hexp.shape)))
+                            gc = np.asarray(P.affine_coords(rows[idx].T.copy(), chart_index=k, column_vectors=True))
+                        if gc.shape != want.T.shape or over(np.abs(gc.T - want).max(-1, initial=0), TOL * scale).any():
+                            viol(int(idx[0]), "affine_coords.column_layout", dict(chart=k, library=lst(gc.T[0]) if gc.ndim == 2 else list(gc.shape), spec=lst(want[0])))
                     except Exception as ex:
-                        viol(int(idx[0]), "raised:column_stack", dict(chart=k, batch_shape=list(bshape), points_per_matrix=N_, error=err(ex)))
-                    run.evaluations += 2 * B * N_
+                        viol(int(idx[0]), "raised:affine_coords.column_layout", dict(chart=k, error=err(ex)))
+                    # round trip: affine -> projective (1 in the chart slot) -> affine
+                    try:
+                        with warnings.catch_warnings():
+                            warnings.simplefilter("ignore")
+                            back = P.Point(want.copy(), chart_index=k)
+                            hom = np.asarray(back.proj_data)
+                            again = np.asarray(back.affine_coords(chart_index=k))
+                            homc = np.asarray(P.projective_coords(want.T.copy(), chart_index=k, column_vectors=True))
+                        if hom.shape != rows[idx].shape or not (hom[..., k] == 1).all():
+                            viol(int(idx[0]), "projective_coords.one_in_chart_slot", dict(chart=k, library=lst(hom[0])))
+                        elif not parallel(hom, rows[idx]).all():
+                            a = int(np.nonzero(~parallel(hom, rows[idx]))[0][0])
+                            viol(int(idx[a]), "projective_coords.same_point", dict(chart=k, library=lst(hom[a]), affine=lst(want[a])))
+                        elif over(np.abs(again - want).max(-1, initial=0), TOL * scale).any():
+                            viol(int(idx[0]), "chart_round_trip", dict(chart=k))
+                        elif homc.shape != hom.T.shape or over(np.abs(homc.T - hom).max(initial=0), 0):
+                            viol(int(idx[0]), "projective_coords.column_layout", dict(chart=k))
+                    except Exception as ex:
+                        viol(int(idx[0]), "raised:projective_coords", dict(chart=k, error=err(ex)))
+                    # stacks of column matrices, shape batch + (d, N): the layout of a composite in column convention
+                    for bshape in ((2,), (3,), (2, 2), (1, 2)):
+                        B = int(np.prod(bshape))
+                        N_ = len(idx) // B
+                        if N_ < 1 or B * N_ < 2 or got is None or got.shape != want.shape:
+                            continue
+                        try:
+                            with warnings.catch_warnings():
+                                warnings.simplefilter("ignore")
+                                sub = rows[idx][:B * N_]
+                                w = want[:B * N_]
+                                stack = sub.reshape(bshape + (N_, n + 1)).swapaxes(-1, -2).copy()
+                                wst = w.reshape(bshape + (N_, n)).swapaxes(-1, -2).copy()
+                                gs = np.asarray(P.affine_coords(stack, chart_index=k, column_vectors=True))
+                                hs = np.asarray(P.projective_coords(wst.copy(), chart_index=k, column_vectors=True))
+                            sc = scale[:B * N_].reshape(bshape + (1, N_))
+                            if gs.shape != wst.shape or over(np.abs(gs - wst), TOL * sc).any():
+                                viol(int(idx[0]), "affine_coords.column_stack", dict(chart=k, batch_shape=list(bshape), points_per_matrix=N_,
+                                                                                      got_shape=list(gs.shape), expected_shape=list(wst.shape)))
+                            hrow = np.asarray(P.projective_coords(w.copy(), chart_index=k))        # row layout of the same points
+                            hexp = hrow.reshape(bshape + (N_, n + 1)).swapaxes(-1, -2)
+                            if hs.shape != hexp.shape or not (hs[..., k, :] == 1).all() or over(np.abs(hs - hexp), 0).any():
+                                viol(int(idx[0]), "projective_coords.column_stack", dict(chart=k, batch_shape=list(bshape), points_per_matrix=N_,
+                                                                                          got_shape=list(hs.shape), expected_shape=list(hexp.shape)))
+                        except Exception as ex:
+                            viol(int(idx[0]), "raised:column_stack", dict(chart=k, batch_shape=list(bshape), points_per_matrix=N_, error=err(ex)))
+                        run.evaluations += 2 * B * N_
             run.evaluations += 3 * len(idx)
         # outside the chart: the conversion must refuse, point by point
-        for i in np.nonzero(~inside)[0]:
+        for i in (np.nonzero(~inside)[0][:3] if light else np.nonzero(~inside)[0]):
             try:
                 with warnings.catch_warnings():
                     warnings.simplefilter("ignore")
@@ -283,6 +297,7 @@ def walk_affine(run, n, cplx, r, rng):
     ks = [k for k in rows]
     if ks:
         check_charts(run, n, cplx, [rows[k] for k in ks], [obs[k] for k in ks], "Point(a, chart_index=i)")
+        check_extreme(run, n, cplx, [rows[k] for k in ks], [obs[k] for k in ks], "Point(a, chart_index=i)", maps["extreme"])
     # ---- embedded maps: the matrix itself (projectively) in both layouts
     tf = {}
     for kind, fn in (("lin", "affine_linear_map"), ("trans", "affine_translation")):
@@ -368,6 +383,7 @@ def walk_affine(run, n, cplx, r, rng):
         fresh = [k for k in new_rows if k not in rows]
         if fresh:
             check_charts(run, n, cplx, [new_rows[k] for k in fresh], [obs[k] for k in fresh], "walk step %d" % (level + 1))
+            check_extreme(run, n, cplx, [new_rows[k] for k in fresh], [obs[k] for k in fresh], "walk step %d" % (level + 1), maps["extreme"])
         for k in fresh:
             rows[k] = new_rows[k]
         level += 1
@@ -540,14 +556,35 @@ def replay_subspaces(run, cfgk, r, rng):
 # ========================================================================================
 # ProjEigen.tla
 # ========================================================================================
-def replay_eigen(run, m, r, rng):
+def in_span(d, basis, tol):
+    """d lies in the span of the rows of `basis` (least-squares residual relative to |d|)"""
+    Bt = np.asarray(basis, complex).T
+    d = np.asarray(d, complex)
+    if not np.isfinite(d).all() or not np.abs(d).max() > 0:
+        return False
+    coef = np.linalg.lstsq(Bt, d, rcond=None)[0]
+    return bool(np.abs(Bt @ coef - d).max() <= tol * np.abs(d).max())
+
+
+def replay_eigen(run, m, r, rng, gauss=False):
+    """states of ProjEigen.tla (integer T, possibly repeated eigenvalues) or ProjEigenSym.tla (gauss=True:
+    Gaussian-integer symmetric / Hermitian T, distinct eigenvalues)"""
     P = proj()
     by_spec = {}
-    for o in r.emits:
-        T = np.array(o["T"], dtype=float)
+    unit_results = {}
+    for si, o in enumerate(r.emits):
+        if gauss:
+            T = gmat(o["T"], True)
+            F = gmat(o["evecs"], True)
+            if not o["complex"]:
+                T, F = T.real.copy(), F.real.copy()
+        else:
+            T = np.array(o["T"], dtype=float)
+            F = np.array(o["evecs"], dtype=float)          # F[k] = eigenvector of ev[k]
         ev = np.array(o["evals"], dtype=float)
-        F = np.array(o["evecs"], dtype=float)          # F[k] = eigenvector of ev[k]
-        by_spec.setdefault(tuple(o["evals"]), []).append((T, F))
+        repeated = len(set(o["evals"])) < m
+        cplx = np.iscomplexobj(T)
+        by_spec.setdefault((tuple(o["evals"]), cplx), []).append((T, F, si))
         key = "eigen:m=%d:T=%s" % (m, skey(o["T"]))
         run.case(key=key, action="eigenvector")
 
@@ -566,20 +603,27 @@ def replay_eigen(run, m, r, rng):
                             viol("eigenvector.type", got=type(v).__name__)
                             break
                         d = np.asarray(v.proj_data)
-                        if d.shape != (m,) or not parallel(d, F[k], 1e-8)[0]:
-                            viol("eigenvector.parallel_to_exact", layout=layout, eigenvalue=float(ev[k]), library=lst(d), exact=o["evecs"][k])
+                        space = F[ev == ev[k]]                 # exact basis of the eigenspace
+                        if d.shape != (m,) or not (parallel(d, F[k], 1e-8)[0] if len(space) == 1 else in_span(d, space, 1e-7)):
+                            viol("eigenvector.in_exact_eigenspace", layout=layout, eigenvalue=float(ev[k]), library=lst(d),
+                                 exact_eigenspace=[o["evecs"][j] for j in range(m) if ev[j] == ev[k]])
                             break
                         img = np.asarray((tr @ v).proj_data)
                         if over(np.abs(img - ev[k] * d).max(), 1e-8 * scale * np.abs(d).max()):
                             viol("eigenvector.mapped_to_multiple", layout=layout, eigenvalue=float(ev[k]), vector=lst(d), image=lst(img))
                             break
+                        if layout == "column":
+                            unit_results[(si, k)] = d
                     v = tr.eigenvector()
                     d = np.asarray(v.proj_data)
                     img = np.asarray((tr @ v).proj_data)
-                    if not (np.abs(d).max() > 0 and parallel(img, d, 1e-8)[0] and any(parallel(d, F[k], 1e-8)[0] for k in range(m))):
+                    if not (np.abs(d).max() > 0 and parallel(img, d, 1e-8)[0]
+                            and any(in_span(d, F[ev == lam], 1e-7) for lam in set(ev.tolist()))):
                         viol("eigenvector.arbitrary", layout=layout, library=lst(d), image=lst(img))
-                    # diagonalising frame
-                    for with_inv in (False, True):
+                    # diagonalising frame.  With a repeated eigenvalue the frame returned by a numerical eigen-solver
+                    # for a non-normal matrix may be arbitrarily ill-conditioned, so the check is made where the
+                    # spec's spectrum is simple
+                    for with_inv in (() if repeated else (False, True)):
                         if with_inv:
                             Mx, Mi = tr.diagonalize(return_inv=True)
                         else:
@@ -597,42 +641,60 @@ def replay_eigen(run, m, r, rng):
                 viol("raised:eigen", layout=layout, error=err(ex))
             run.evaluations += m + 3
     # composite transformations sharing a spectrum
-    for evs, items in by_spec.items():
-        Ts = np.array([t for t, _ in items])
+    for (evs, cplx), items in by_spec.items():
+        Ts = np.array([t for t, _, _ in items])
         S = len(items)
+        repeated = len(set(evs)) < m
+        eva = np.array(evs, dtype=float)
         for shp in [(S,)] + ([(S // 2, 2)] if S >= 2 else []):
             cnt = int(np.prod(shp))
-            key = "eigen:m=%d:composite:%s:%r" % (m, evs, shp)
+            key = "eigen:m=%d:composite:%s:%s:%r" % (m, evs, "c" if cplx else "r", shp)
             run.case(key=key, action="eigenvector.composite")
             try:
                 with warnings.catch_warnings():
                     warnings.simplefilter("ignore")
                     tr = P.Transformation(Ts[:cnt].reshape(shp + (m, m)).copy(), column_vectors=True)
-                    for k in range(m):
+                    # (the composite branch of eigenvector stores its result in a real array: exercised on real data)
+                    for k in (range(m) if not cplx else ()):
                         d = np.asarray(tr.eigenvector(float(evs[k])).proj_data)
                         if d.shape != shp + (m,):
                             run.violation(key, "eigenvector.composite.shape", dict(m=m, shape=list(shp), got=list(d.shape)))
                             break
                         d = d.reshape(cnt, m)
-                        want = np.array([f[k] for _, f in items[:cnt]])
-                        ok = parallel(d, want, 1e-8)
-                        if not ok.all():
-                            i = int(np.nonzero(~ok)[0][0])
-                            run.violation(key + ":%d" % i, "eigenvector.composite.parallel_to_exact",
-                                          dict(m=m, shape=list(shp), index=i, T=Ts[i].tolist(), eigenvalue=evs[k], library=lst(d[i]), exact=want[i].tolist()))
+                        bad = None
+                        for i in range(cnt):
+                            Ti, Fi, si = items[i]
+                            space = Fi[eva == eva[k]]
+                            if not (parallel(d[i], Fi[k], 1e-8)[0] if len(space) == 1 else in_span(d[i], space, 1e-7)):
+                                bad = (i, "eigenvector.composite.in_exact_eigenspace", space.tolist())
+                            elif over(np.abs(Ti @ d[i] - eva[k] * d[i]).max(), 1e-8 * np.abs(Ti).max() * np.abs(d[i]).max()):
+                                bad = (i, "eigenvector.composite.mapped_to_multiple", space.tolist())
+                            elif (si, k) in unit_results and not over(np.abs(np.imag(unit_results[(si, k)])).max(), 1e-12) \
+                                    and not parallel(d[i], unit_results[(si, k)], 1e-8)[0]:
+                                # a composite is an array of units: its i-th vector is the one the i-th unit reports (compared
+                                # where the unit's vector is real; a numerically split repeated eigenvalue makes it complex and
+                                # the composite, which stores real arrays, then reports its real part)
+                                bad = (i, "eigenvector.composite.equals_unit", lst(unit_results[(si, k)]))
+                            if bad:
+                                run.violation(key + ":%d" % i, bad[1], dict(m=m, shape=list(shp), index=i, T=Ti.tolist(), eigenvalue=evs[k],
+                                                                            library=lst(d[i]), expected=bad[2]))
+                                break
+                        if bad:
                             break
-                    Mx = tr.diagonalize()
-                    Dm = np.asarray((Mx.inv() @ tr @ Mx).proj_data).reshape(cnt, m, m)
-                    off = Dm - Dm * np.eye(m)
-                    if over(np.abs(off).max(), 1e-8 * np.abs(Ts).max()):
-                        run.violation(key, "diagonalize.composite.diagonal", dict(m=m, shape=list(shp)))
+                    if not repeated:
+                        Mx = tr.diagonalize()
+                        Dm = np.asarray((Mx.inv() @ tr @ Mx).proj_data).reshape(cnt, m, m)
+                        off = Dm - Dm * np.eye(m)
+                        if over(np.abs(off).max(), 1e-8 * np.abs(Ts).max()):
+                            run.violation(key, "diagonalize.composite.diagonal", dict(m=m, shape=list(shp)))
             except Exception as ex:
                 run.violation(key, "raised:eigen.composite", dict(m=m, shape=list(shp), error=err(ex)))
             run.evaluations += cnt * (m + 1)
     run.traces += len(r.emits)
     run.nontrivial_count += len(r.emits)
     if r.emits:
-        run.sample(dict(kind="transformation with exact eigen-data", **r.emits[len(r.emits) // 2]))
+        run.sample(dict(kind="symmetric / Hermitian transformation with exact eigen-data" if gauss else "transformation with exact eigen-data",
+                        **r.emits[len(r.emits) // 2]))
 
 
 # ========================================================================================
@@ -654,12 +716,14 @@ def run(run, replay=None):
         aff = [(n, False, 2, 2) for n in (1, 2, 3, 4, 5)] + [(1, True, 2, 2), (2, True, 2, 2), (3, True, 2, 2), (4, True, 1, 2), (5, True, 1, 1)]
         sub = [(2, 2, 1, 3), (3, 2, 2, 3), (4, 3, 3, 2), (4, 3, 2, 2), (4, 2, 3, 2), (5, 4, 3, 2), (5, 3, 3, 1), (6, 5, 4, 1), (6, 4, 3, 1)]
         eig = [(m, 2) for m in (2, 3, 4, 5, 6)]
+        sym = [(2, 2, "orth"), (3, 2, "orth"), (4, 1, "orth"), (5, 1, "orth"), (2, 2, "unit"), (3, 2, "unit"), (6, 1, "unit")]
     else:
         aff = [(n, False, 4, 3 if n <= 3 else 2) for n in (1, 2, 3, 4, 5)] + [(n, True, 3 if n <= 3 else 2, 3 if n <= 2 else 2) for n in (1, 2, 3, 4, 5)]
         sub = [(2, 2, 1, 4), (3, 2, 2, 4), (3, 3, 2, 3), (4, 3, 3, 3), (4, 3, 2, 3), (4, 2, 3, 3), (4, 4, 2, 2), (5, 4, 3, 3), (5, 3, 3, 3),
                (5, 4, 4, 2), (6, 5, 4, 2), (6, 4, 3, 2), (6, 5, 5, 2), (6, 3, 4, 2)]
         eig = [(m, 3 if m <= 4 else 2) for m in (2, 3, 4, 5, 6)]
-    jobs = [("aff", a) for a in aff] + [("sub", s) for s in sub] + [("eig", e) for e in eig]
+        sym = [(m, 3 if m <= 3 else 2, mode) for m in (2, 3, 4, 5, 6) for mode in ("orth", "unit")]
+    jobs = [("aff", a) for a in aff] + [("sub", s) for s in sub] + [("eig", e) for e in eig] + [("sym", e) for e in sym]
     w = 2 if quick else 3
 
     def tlc(job):
@@ -672,6 +736,10 @@ def run(run, replay=None):
             m, p, q, ml = a
             c = core.cfg(constants=dict(M=m, P=p, Q=q, MaxLen=ml), invariants=SUB_INVS, view="View")
             return run.tlc("proj/Subspaces.tla", c, name="Subspaces_%d_%d_%d" % (m, p, q), workers=w, emit_prefix="OBS ")
+        if kind == "sym":
+            m, ml, mode = a
+            c = core.cfg(constants=dict(M=m, MaxLen=ml, Mode=mode), invariants=SYM_INVS, view="View")
+            return run.tlc("proj/ProjEigenSym.tla", c, name="ProjEigenSym_%d_%s" % (m, mode), workers=w, emit_prefix="OBS ")
         m, ml = a
         c = core.cfg(constants=dict(M=m, MaxLen=ml), invariants=EIG_INVS, view="View")
         return run.tlc("proj/ProjEigen.tla", c, name="ProjEigen_%d" % m, workers=w, emit_prefix="OBS ")
@@ -686,5 +754,7 @@ def run(run, replay=None):
             walk_affine(run, a[0], a[1], r, rng)
         elif kind == "sub":
             replay_subspaces(run, a[:3], r, rng)
+        elif kind == "sym":
+            replay_eigen(run, a[0], r, rng, gauss=True)
         else:
             replay_eigen(run, a[0], r, rng)
